@@ -78,17 +78,15 @@ func EvLog(format string, a ...any) {
 }
 
 type Sim struct {
-	ranAny    bool
-	lastRunAt time.Duration
-	Seed      uint64
-	start     time.Time
-	mu        sync.Mutex
-	inbox     []*Event
-	q         eventHeap
-	wake      chan struct{}
-	order     uint64
-	seq       atomic.Uint64 // global event sequence number for history stamps
-	Limits    Limits
+	Seed   uint64
+	start  time.Time
+	mu     sync.Mutex
+	inbox  []*Event
+	q      eventHeap
+	wake   chan struct{}
+	order  uint64
+	seq    atomic.Uint64 // global event sequence number for history stamps
+	Limits Limits
 
 	Events   int
 	Aborted  string // non-empty: the run hit a budget; oracles must not judge liveness-free claims on it
@@ -259,14 +257,6 @@ func (s *Sim) Run(main func()) string {
 			t.Stop()
 			continue
 		}
-		if s.ranAny && now == s.lastRunAt {
-			// No two events run at one simulated instant: goroutines released by two events of the same instant would
-			// later arm equal timers (a back-off without jitter) and be woken together - on several processors in an
-			// order nobody decides. A nanosecond of simulated time between them keeps every wake-up alone.
-			time.Sleep(time.Nanosecond)
-			continue
-		}
-		s.ranAny, s.lastRunAt = true, now
 		heap.Pop(&s.q)
 		s.Events++
 		if evlog != nil {
